@@ -1,12 +1,13 @@
-(* C02 — plugins touching disjoint items, or removing before setting, never conflict. *)
-From Coq Require Import String List Bool.
-From NRI Require Import Model.Types Model.Result Spec.AbsLedger Proofs.LedgerProofs.
+(* C02 — plugins touching disjoint items, or removing before setting, never conflict.
+   Only statements here; proofs are in Proofs/LedgerProofs.v and Proofs/RefineLedger.v. *)
+From Coq Require Import String List Bool ZArith.
+From NRI Require Import Model.Types Model.Result Spec.AbsLedger Proofs.LedgerProofs Proofs.RefineLedger.
+From NRI Require Properties.C01.
 Import ListNotations.
 
-(* If no key is claimed twice in the whole history (no two plugins set the same item of the same
-   container) and none is held beforehand, the abstract ledger never reports a conflict — whatever is
-   released, whatever the original container or the runtime's request contains (abs_run does not
-   read them at all). *)
+(* (1) The abstract ledger: if no key is claimed twice in the whole history (no two plugins set the
+   same item of the same container) and none is held beforehand, there is no conflict — whatever is
+   released. *)
 Theorem C02_abs_disjoint_no_conflict :
   forall gs o d,
     NoDup (concat (map g_claims gs)) ->
@@ -15,8 +16,66 @@ Theorem C02_abs_disjoint_no_conflict :
 Proof. exact abs_disjoint_no_conflict. Qed.
 Print Assumptions C02_abs_disjoint_no_conflict.
 
+(* (2) Refinement: for EVERY request, EVERY original container / requested resources and EVERY chain of
+   responses: no abstract conflict and no update of the container being created => the model of
+   result.go succeeds.  A plugin is therefore never blamed for an item it did not set. *)
+Theorem C02_no_false_conflict :
+  forall rq rps, Forall wf_rp rps ->
+    abs_conflict (req_created rq) rps = false -> self_update (req_created rq) rps = false ->
+    exists s, snd (run_request rq rps) = Ok s.
+Proof. exact no_conflict_succeeds. Qed.
+Print Assumptions C02_no_false_conflict.
+
+(* (1)+(2): disjoint writers always succeed *)
+Theorem C02_disjoint_writers_succeed :
+  forall rq rps, Forall wf_rp rps ->
+    NoDup (concat (map g_claims (all_groups (req_created rq) rps))) ->
+    self_update (req_created rq) rps = false ->
+    exists s, snd (run_request rq rps) = Ok s.
+Proof. exact disjoint_writers_succeed. Qed.
+Print Assumptions C02_disjoint_writers_succeed.
+
+(* "whatever else the original container or the runtime's own update request contains": whether a
+   request succeeds depends on the plugins' responses and on WHICH container is being created, not on
+   the container's content nor on the resources the runtime asked for (fully pre-populated or empty) *)
+Theorem C02_request_content_irrelevant :
+  forall rq rq' rps, Forall wf_rp rps -> req_created rq = req_created rq' ->
+    ((exists s, snd (run_request rq rps) = Ok s) <-> (exists s', snd (run_request rq' rps) = Ok s')).
+Proof. exact verdict_ignores_request_content. Qed.
+Print Assumptions C02_request_content_irrelevant.
+
+(* removal releases — with a set in the same response: a response that marks for removal every item
+   it sets cannot conflict with anything before it *)
+Theorem C02_remove_then_set_never_conflicts :
+  forall pre g o d o' d',
+    abs_run pre o d = Some (o', d') -> NoDup (g_claims g) ->
+    (forall k, In k (g_claims g) -> In k (g_releases g)) ->
+    exists r, abs_run (pre ++ [g]) o d = Some r.
+Proof. exact abs_remove_then_set. Qed.
+Print Assumptions C02_remove_then_set_never_conflicts.
+
+(* removal releases — without a set: after a response that only removes, the next response may set
+   what was removed *)
+Theorem C02_lone_removal_releases :
+  forall pre g g' o d o' d',
+    abs_run pre o d = Some (o', d') -> g_claims g = [] -> NoDup (g_claims g') ->
+    (forall k, In k (g_claims g') -> In k (g_releases g) \/ In k (g_releases g')) ->
+    exists r, abs_run (pre ++ [g; g']) o d = Some r.
+Proof. exact abs_lone_removal_releases. Qed.
+Print Assumptions C02_lone_removal_releases.
+
+(* non-vacuity *)
 Example C02_example_remove_then_set :
   abs_conflict (Some "c"%string)
     [ {| rp_adjust := Some (with_a_ann adj_empty [("k", "A")]%string); rp_updates := [] |};
       {| rp_adjust := Some (with_a_ann adj_empty [("-k", ""); ("k", "B")]%string); rp_updates := [] |} ] = false.
 Proof. reflexivity. Qed.
+
+(* A sets env E, B only removes it, C sets it again; the update request of a fully pre-populated
+   container, two plugins writing disjoint fields: both succeed in the model *)
+Example C02_example_lone_removal :
+  let rps := [ {| rp_adjust := Some (with_a_env adj_empty [("E", "A")]%string); rp_updates := [] |};
+               {| rp_adjust := Some (with_a_env adj_empty [("-E", "")]%string); rp_updates := [] |};
+               {| rp_adjust := Some (with_a_env adj_empty [("E", "C")]%string); rp_updates := [] |} ] in
+  abs_conflict (Some "c"%string) rps = false /\ exists s, snd (run_request (RCreate NRI.Properties.C01.ex_c) rps) = Ok s.
+Proof. split; [reflexivity|eexists; vm_compute; reflexivity]. Qed.
